@@ -532,6 +532,10 @@ func checkC17(c *Ctx) {
 				}
 			})
 			c.Check(kill != nil && instrDominates(sendAt, kill) && len(otherSteps) == 0, "R1", site+" acknowledges before signalling", sendAt.Pos(), "reply dominates the termination signal", "the terminate handler signals the process before (or without) acknowledging, or performs another step")
+			if kill != nil {
+				path := findPath(entryPos(a.fn), pathQuery{target: isReturn, avoid: func(x ssa.Instruction) bool { return x == kill }})
+				c.Check(path == nil, "R1", site+" is carried out on every path", kill.Pos(), "every path of the handler reaches the termination signal", "a terminate request that was received can end without the process signalling itself ("+p.pathString(path)+"): the requested step depends on whether the reply could be written - a child that dies right after asking leaves the old process alive, drained and without its admin API")
+			}
 		}
 	}
 	if defaultFn != nil {
@@ -930,6 +934,26 @@ func checkC17(c *Ctx) {
 					bad = cc.Method.Name()
 				}
 			}
+		})
+		// every processor is asked: from a StopListen call no return is reachable without coming back to the loop header
+		// (an error of one processor - its listener is already closed because the service is being removed - must not
+		// end the drain for the others)
+		eachInstr(dl, func(b *ssa.BasicBlock, _ int, in ssa.Instruction) {
+			cc := callOf(in)
+			if cc == nil || !cc.IsInvoke() || cc.Method.Name() != "StopListen" {
+				return
+			}
+			var hdr *ssa.BasicBlock
+			for _, h := range loopHeaders(dl) {
+				if h.Dominates(b) {
+					hdr = h
+				}
+			}
+			if hdr == nil {
+				return
+			}
+			path := findPath(posOf(in), pathQuery{target: isReturn, avoid: func(x ssa.Instruction) bool { return x.Block() == hdr }})
+			c.Check(path == nil, "R6", "drain asks every processor", in.Pos(), "the loop over the processors is left only when it is exhausted", "the drain loop can end before every processor was asked to stop listening ("+p.pathString(path)+"): one processor whose StopListen fails (its socket is already closed because the service is being removed) ends the step for all that follow - they keep accepting although the drain is acknowledged, and the step is never retried")
 		})
 		c.Check(bad == "" && n >= 1, "R6", "drain calls only StopListen", dl.Pos(), "StopListen on every processor of the snapshot", "draining calls "+bad+" on processors: established connections are not kept")
 	}
